@@ -65,6 +65,10 @@ def _grid01(rng: Rng, m, uniform=None):
     if uniform is None:
         uniform = rng.random() < 0.5
     if uniform and (m - 1) & (m - 2) == 0:
+        if rng.random() < 0.5:
+            # nearly regular: relative spacing jitter 2^-10 … 2^-23 (exact dyadics)
+            r = rng.choice([10, 17, 23])
+            return [Fraction(i, m - 1) + Fraction(rng.randint(-1, 1) if 0 < i < m - 1 else 0, (m - 1) * 2 ** r) for i in range(m)]
         return [Fraction(i, m - 1) for i in range(m)]
     inner = sorted(rng.sample(range(1, 256), m - 2))
     return [Fraction(0)] + [Fraction(j, 256) for j in inner] + [Fraction(1)]
@@ -300,6 +304,31 @@ def _case(rng: Rng, tier, entry=None, force=None):
             case["variants"] = [["sub", Qs[1:3]], ["thin", Qs[::2]], ["single", [Qs[2]]], ["perm", [Qs[2], Qs[0], Qs[3], Qs[1]]], ["super", sorted(set(Qs) | {case["obs"][0]["t"][0]}, key=F)]]
             case["degree"] = rng.choice([1, 2])
             case["hu"] = rs(rng.choice([Fraction(3, 4), Fraction(1)]))
+    # near-coincident DISTINCT query locations (gaps of 1e-9 … 1e-5 bandwidths), requested jointly, alone, reversed
+    if not two_d and not entry.endswith("covariance") and not gap and not case.get("pooled") and (force.get("near") or rng.random() < 0.25):
+        lo_, sc_ = _domain(dom)
+        hdat = (F(case["hu"]) if method == "LP" else Fraction(1, 8)) * sc_
+        Qf = [F(t) for t in case["Q"]]
+        picks = rng.sample(range(len(Qf)), min(3, len(Qf)))
+        near = []
+        for i, kk in zip(picks, rng.sample([17, 20, 23, 26, 30], 3)):
+            near.append((Qf[i], Qf[i] + hdat * Fraction(1, 2 ** kk)))
+        Qn = sorted(set(Qf) | {b for _, b in near})
+        case["near"] = True
+        case["Q"] = [rs(t) for t in Qn]
+        case["variants"] += [["reversed", [rs(t) for t in Qn[::-1]]], ["near_thin", [rs(t) for t in Qn[1::2]]]]
+        for j, (a, b) in enumerate(near):
+            case["variants"] += [[f"near_alone{j}", [rs(b)]], [f"near_pair_reversed{j}", [rs(b), rs(a)]]]
+        if entry.startswith("IrregularFunctionalData"):
+            # pooled time stamps of several curves: observation k is sampled at the common stamps shifted by k tiny steps
+            step = hdat * Fraction(1, 2 ** 24)
+            for kobs, o in enumerate(case["obs"]):
+                ts = [F(t) for t in o["t"]]
+                o["t"] = [rs(t + kobs * step) if 0 < i < len(ts) - 1 else rs(t) for i, t in enumerate(ts)]
+            pooled_pts = sorted(set(F(t) for o in case["obs"] for t in o["t"]))
+            mid = len(pooled_pts) // 2
+            case["variants"].append(["pooled_stamps", [rs(t) for t in pooled_pts[mid - 4: mid + 4]]])
+            case["variants"].append(["pooled_stamps_thin", [rs(t) for t in pooled_pts[mid - 4: mid + 4: 3]]])
     # query-set SIZES around typical thresholds (101/102, 129, 257 points per direction), data kept tiny
     if entry.endswith("covariance") and (force.get("bigq") or rng.random() < 0.12):
         N = 102 if method == "LP" else rng.choice([102, 129])
@@ -339,6 +368,9 @@ def gen_cases(rng: Rng, tier):
                 k += 1
     for method in ("PS", "LP"):
         yield _case(rng, tier, "IrregularFunctionalData.mean", dict(method=method, dom=rng.choice(["unit", "end0", "doy"]), nonconst=True, pooled=True))
+        k += 1
+    for entry in ("LocalPolynomial.predict", "DenseFunctionalData.smooth", "DenseFunctionalData.mean", "IrregularFunctionalData.smooth", "IrregularFunctionalData.mean", "PSplines.predict"):
+        yield _case(rng, tier, entry, dict(method="PS" if entry.startswith("PSplines") else "LP", dom=rng.choice(["unit", "doy", "shift1000"]), nonconst=True, near=True))
         k += 1
     for entry, method in (("DenseFunctionalData.covariance", "LP"), ("IrregularFunctionalData.covariance", "LP"), ("DenseFunctionalData.covariance", "PS")):
         yield _case(rng, tier, entry, dict(method=method, dom=rng.choice(["unit", "doy"]), nonconst=True, bigq=True))
@@ -500,7 +532,7 @@ def run_impl(case):
             # one query buffer reused IN PLACE for successive query sets of the same length (strided view, too)
             buf = np.repeat(_np(case["Q"]), 2)[::2]
             first = np.asarray(ps.predict(buf)).tolist()
-            pv = [v for v in case["variants"] if v[0] == "perm"][0][1]
+            pv = [v[1] for v in case["variants"] if v[0] in ("perm", "reversed") and len(v[1]) == len(case["Q"])][0]
             buf[:] = _np(pv)
             out["inplace"] = dict(first=first, pts=pv, second=np.asarray(ps.predict(buf)).tolist())
             # history on one object: refit on other data (other domain, no explicit fit domain), compare with a fresh object
@@ -534,7 +566,7 @@ def run_impl(case):
             # one query buffer reused IN PLACE for successive query sets of the same length
             buf = _np(case["Q"]).copy()
             first = lp.predict(y=y, x=x, x_new=buf).tolist()
-            pv = [v for v in case["variants"] if v[0] == "perm"][0][1]
+            pv = [v[1] for v in case["variants"] if v[0] in ("perm", "reversed") and len(v[1]) == len(case["Q"])][0]
             buf[:] = _np(pv)
             out["inplace"] = dict(first=first, pts=pv, second=lp.predict(y=y, x=x, x_new=buf).tolist())
         else:
@@ -872,7 +904,9 @@ def oracle(case, impl):
     base = dict()
     flat0 = _flat(case, 0, impl["calls"][0]["vals"])
     amp = max([abs(v) for _, v in flat0 if np.isfinite(v)] + [1.0])
-    tol = 1e-9 * amp
+    # local polynomial values are computed location by location: the unchanged tree is bit-identical across query sets,
+    # so the clause is judged at 1e-13 relative there (P-spline values go through BLAS products: 1e-9)
+    tol = (1e-13 if case["method"] == "LP" else 1e-9) * amp
     for loc, v in flat0:
         if not np.isfinite(v):
             bad("finite", f"non-finite value {v!r} at {loc} for the base query set")
@@ -978,6 +1012,8 @@ def classify(case, impl):
         tags.append("default-bandwidth")
     if case.get("pooled"):
         tags.append("pooled>2000")
+    if case.get("near"):
+        tags.append("near-coincident-queries")
     if case.get("bigq") or case.get("many"):
         tags.append(f"query-size:{case.get('bigq') or case.get('many')}")
     if case.get("gap"):
